@@ -110,3 +110,64 @@ def trs_dict_ok(d):
         and (not d['rge_undef'] or d['rge_num'] is None)
         and (not d['sec_undef'] or d['sec_num'] is None)
     )
+
+
+class TRST(T):
+    """one TRS object whose dict fields are symbolic (class invariant assumed; proved in C12)"""
+
+    def __init__(self, with_inv=True):
+        self.with_inv = with_inv
+
+    def make(self, ip, name):
+        from pytrs.parser.trs.trs import TRS
+        d = {}
+        terms = {}
+        for k, (srt, opt) in TRS_FIELDS.items():
+            v = z3.Const(fresh_name(f'{name}_{k}'), _SORT[srt])
+            if opt:
+                n = z3.Bool(fresh_name(f'{name}_{k}_none'))
+                d[k] = SOpt(n, SV(v))
+                terms[k] = (n, v)
+            else:
+                d[k] = SV(v)
+                terms[k] = (None, v)
+        if self.with_inv:
+            ip.ctx.assume(trs_dict_inv_terms({k: ((n if n is not None else z3.BoolVal(False)), v) for k, (n, v) in terms.items()}))
+        return Obj(TRS, {'_TRS__trs_dict': d}, tag=name)
+
+
+class TractT(T):
+    """one Tract object: symbolic TRS, description text, creation counter and a ghost boolean `vflag`"""
+
+    def make(self, ip, name):
+        from pytrs.parser.tract.tract import Tract
+        trs = TRST().make(ip, name + '_trs')
+        return Obj(Tract, {
+            '_Tract__trs': trs, '_Tract__uid': SV(z3.Int(fresh_name(name + '_uid'))),
+            'pp_desc': SV(z3.String(fresh_name(name + '_pp_desc'))), 'desc': SV(z3.String(fresh_name(name + '_desc'))),
+            'parse_complete': SV(z3.Bool(fresh_name(name + '_parsed'))), 'lots': [], 'qqs': [],
+            'vflag': SV(z3.Bool(fresh_name(name + '_vflag'))),
+        }, tag=name)
+
+
+class ContainerT(T):
+    """TractList / TRSList holding k distinct elements"""
+
+    def __init__(self, kind, k, repeat=False):
+        self.kind, self.k, self.repeat = kind, k, repeat
+
+    def make(self, ip, name):
+        from pytrs.parser.containers.containers import TractList, TRSList
+        if self.kind == 'TRS':
+            elems = []
+            for i in range(self.k):
+                e = TRST().make(ip, f'{name}{i}')
+                e.fields['vflag'] = SV(z3.Bool(fresh_name(f'{name}{i}_vflag')))
+                elems.append(e)
+            if self.repeat and self.k >= 2:
+                elems[-1] = elems[0]
+            return Obj(TRSList, {'_elements': elems}, tag=name)
+        elems = [TractT().make(ip, f'{name}{i}') for i in range(self.k)]
+        if self.repeat and self.k >= 2:
+            elems[-1] = elems[0]          # the same instance twice
+        return Obj(TractList, {'_elements': elems}, tag=name)
